@@ -1,6 +1,6 @@
 (* C13 Results do not depend on what was computed before (no stale workspace). *)
 From Coq Require Import List NArith.
-From RV Require Import Scalar LinAlg3 Spatial Quat Laws ListArr ModelDef JointDef KinDef LinDef DynDef C14Thm WsLemmas KinThm KinThm2 DynThm NleThm KinThm3 C04Thm JacThm JacThm2 JacThm3.
+From RV Require Import Scalar LinAlg3 Spatial Quat Laws ListArr ModelDef JointDef KinDef LinDef DynDef C14Thm WsLemmas KinThm KinThm2 DynThm NleThm KinThm3 C04Thm JacThm JacThm2 JacThm3 ConsDef CrbaGen.
 Section P.
   Context {T : Type} (O : Ops T) {FL : FieldLaws O}.
   (* jcalc never writes X_base, v, a, c, f, pA, U, ..., and writes X_lambda, v_J, c_J, S only at its own index *)
@@ -88,8 +88,19 @@ Section P2.
     intros W C G1 G2. 
     exact (jacobians_ws_independent O M q W C (vzeros (o0 O) (dof_count M)) (vzeros_length _ _) w1 w2 id p G6 G3 G1 G2).
   Qed.
+  (* the joint-space inertia matrix (flag cleared after the position update), entry by entry *)
+  Theorem C13_inertia_matrix (M : @Model T) q (w1 w2 : @WS T) : WF M ->
+    (forall i j, 0 < i < nbodies M -> 0 < j < nbodies M -> i <> j ->
+       is_custom (jkind (getJ M i)) = true -> is_custom (jkind (getJ M j)) = true -> jcust (getJ M i) <> jcust (getJ M j)) ->
+    (forall i, 0 < i < nbodies M -> joint_wf O M q i) -> o2 O <> o0 O -> Good O M w1 -> Good O M w2 ->
+    let n := dof_count M in
+    forall r s, r < n -> s < n ->
+      mget (o0 O) (snd (crba O M (ukc_q O M w1 q) q (zerosM O n n) false)) r s =
+      mget (o0 O) (snd (crba O M (ukc_q O M w2 q) q (zerosM O n n) false)) r s.
+  Proof. exact (crba_after_position_update_ws_independent O M q w1 w2). Qed.
 End P2.
 Print Assumptions C13_jcalc_frame. Print Assumptions C13_jcalc_values. Print Assumptions C13_jcalc_keeps_invariant.
 Print Assumptions C13_position_update. Print Assumptions C13_point_velocity. Print Assumptions C13_inverse_dynamics.
 Print Assumptions C13_nonlinear_effects. Print Assumptions C13_full_kinematics_update. Print Assumptions C13_point_acceleration.
 Print Assumptions C13_jacobians.
+Print Assumptions C13_inertia_matrix.
